@@ -151,6 +151,10 @@ func (m *Method) Call(self Object, args Tuple) (Object, error) {
 			return nil, ExceptionNewf(TypeError, "%s() takes exactly 1 argument (%d given)", m.Name, len(args))
 		}
 		return f(self, args[0])
+	case InternalMethod:
+		// globals(), locals() etc need the frame of their caller so
+		// they only work when called directly from python code
+		return nil, ExceptionNewf(SystemError, "%s() can't be called from here", m.Name)
 	}
 	panic(fmt.Sprintf("Unknown method type: %T", m.method))
 }
@@ -167,6 +171,8 @@ func (m *Method) CallWithKeywords(self Object, args Tuple, kwargs StringDict) (O
 		func(Object) (Object, error),
 		func(Object, Object) (Object, error):
 		return nil, ExceptionNewf(TypeError, "%s() takes no keyword arguments", m.Name)
+	case InternalMethod:
+		return nil, ExceptionNewf(SystemError, "%s() can't be called from here", m.Name)
 	}
 	panic(fmt.Sprintf("Unknown method type: %T", m.method))
 }
